@@ -475,8 +475,9 @@ class CSSStyleSheet(cssutils.stylesheets.StyleSheet):
 
     def _updateVariables(self):
         """Updates self._variables, called when @import or @variables rules
-        is added to sheet.
+        is added to or removed from the sheet.
         """
+        self._variables = CSSVariablesDeclaration()
         for r in self.cssRules.rulesOfType(CSSRule.IMPORT_RULE):
             s = r.styleSheet
             if s:
